@@ -48,4 +48,13 @@ CLAIMED = {
         note='Trusted: Coq kernel, py2coq, harness. sqrt enters as a function parameter, assumed a morphism for == and exact on the '
              'radicands used (pointwise). Face3D model covers faces without holes.',
         technique=T_Q),
+    'C10': dict(
+        text='The min/max scan shared by every vertex-list class (translated with its if/elif) is proved, for any number of '
+             'vertices, to return a box with min<=max that contains every vertex and whose four sides are each attained by a vertex; '
+             'center is proved the midpoint; segment/ray boxes are proved to contain every point of the segment; the overlap '
+             'predicate is proved symmetric and equal to the exact interval gap test. Arcs (every angle pair), solids, 3D classes, '
+             'collections and rotated frames are searched against dense samples / closed forms.',
+        note='Trusted: Coq kernel, py2coq, harness. Arc boxes are translated and run in correspondence but their correctness is '
+             'validated by sampling, not proved. Known finding: Arc3D partial-arc boxes.',
+        technique=T_Q),
 }
